@@ -2,7 +2,7 @@
 # usage: tools/mut.sh <module> <prop> <file-relative-to-src/bldfm> <python-regex-old> <new>   (scratch copy of the fixed tree)
 set -e
 M=/verif/.work/mut$$
-rm -rf $M; mkdir -p $M; cp -r /verif/.work/fixed/src $M/src
+rm -rf $M; mkdir -p $M; cp -r /repo/src $M/src
 python3 - "$M/src/bldfm/$3" "$4" "$5" <<'PY'
 import sys,re
 p,old,new=sys.argv[1:4]
